@@ -33,7 +33,22 @@ class World:
         scheme = {'http': 'ksi+http', 'tcp': 'ksi+tcp', 'async-tcp': 'ksi+tcp', 'async-http': 'ksi+http', 'ha': 'ksi+tcp'}[transport]
         uri = '%s://srv.example:1234%s' % (scheme, '/p' if 'http' in scheme else '')
         k = key.decode('latin1')
-        if transport == 'http' and kind == 'aggr' and rng.random() < 0.25 and login.isascii():
+        usafe = set(string.ascii_letters + string.digits + "-._~!$&()*+,;=")
+        if set(k) <= usafe | {':'} and set(login) <= usafe and k and rng.random() < 0.6:
+            # both credentials inside the URI (explicit arguments NULL): the login id ends at the first colon, everything up to the '@' is the key
+            uri = uri.replace('://', '://%s:%s@' % (login, k), 1)
+            if transport in ('http', 'tcp'):
+                self.setrc = c('set_aggr 0 %s - -' % uri).rc
+                c('set_ext 0 %s - -' % uri.replace('1234', '1235'))
+            else:
+                c('async_new 0 0 %s' % ({'aggr': 'sign', 'ext': 'extend'}[kind] if transport != 'ha' else {'aggr': 'hasign', 'ext': 'haextend'}[kind]))
+                self.setrc = c('async_endpoint 0 %s %s - -' % ('add' if transport == 'ha' else 'set', uri)).rc
+                if transport == 'ha':
+                    c('async_endpoint 0 add %s - -' % uri.replace('1234', '1236'))
+                c('async_opt 0 cache_size 8')
+                c('async_opt 0 max_request_count 100')
+            self.embedded_credentials = True
+        elif transport == 'http' and kind == 'aggr' and rng.random() < 0.25 and login.isascii():
             # credentials given half in the URI, half explicitly: the login id comes from the URI (explicit argument NULL), the key is the explicit one -
             # each explicit argument takes precedence on its own
             uri = uri.replace('://', '://%s:uri-embedded-key@' % login, 1)
@@ -154,11 +169,17 @@ def request_part(job, r):
     for i in range(n):
         klen = rng.choice(lens) if rng.random() < 0.8 else rng.randint(1, 300)
         key = mk_key(rng, klen)
+        if rng.random() < 0.12:
+            # a key that can be written into a URI, colons included
+            key = ':'.join(''.join(rng.choice(string.ascii_letters + string.digits + '-._~!$()*+,;=') for _ in range(rng.randint(1, 12))) for _ in range(rng.choice([1, 2, 2, 3]))).encode()
+            klen = len(key)
         version = rng.choice([1, 2])
         alg = rng.choice([1, 1, 2, 4, 5])
         transport = rng.choice(['http', 'tcp', 'async-tcp', 'async-http', 'ha'])
         login = rng.choice(logins)
         w = World((exe, env, work), rng, transport, version, alg, key, login)
+        if getattr(w, 'embedded_credentials', False):
+            r.count('sessions_with_credentials_in_the_uri' + ('_key_with_colon' if b':' in key else ''))
         w.next_reply = lambda req: b''
         hdrcb = rng.random() < 0.4
         if hdrcb:
@@ -258,7 +279,11 @@ def response_part(job, r):
         alg = rng.choice([1, 1, 4, 5])
         transport = rng.choice(['http', 'tcp', 'async-tcp', 'async-http', 'ha'])
         key = mk_key(rng, rng.choice([1, 4, 64, 65, 200]))
+        if rng.random() < 0.2:
+            key = rng.choice([b'k1:k2', b'se:cr:et', b'a:b', b'plain-key.1'])
         w = World((exe, env, work), rng, transport, version, alg, key, 'anon')
+        if getattr(w, 'embedded_credentials', False):
+            r.count('sessions_with_credentials_in_the_uri' + ('_key_with_colon' if b':' in key else ''))
         h = gen.rnd_imprint(rng, 1)
         s = small_sig(rng, h, big=(i % 4 == 0))
         honest_sig = s.enc().hex()
